@@ -220,12 +220,18 @@ func main() {
 				continue
 			}
 			h, herr := ct.LeafHashForLeaf(&leaf)
-			want := sha256.Sum256(append([]byte{0}, lb...))
+			var hl []byte // the harness's own encoding of the leaf (sweep.go)
+			if precert {
+				hl = handLeaf(ts, true, leaf.TimestampedEntry.PrecertEntry.IssuerKeyHash, leaf.TimestampedEntry.PrecertEntry.TBSCertificate, ext)
+			} else {
+				hl = handLeaf(ts, false, [32]byte{}, leaf.TimestampedEntry.X509Entry.Data, ext)
+			}
+			want := sha256.Sum256(append([]byte{0}, hl...))
 			w.Add(lib.Case{
 				Coq:    fmt.Sprintf("CRfcLeaf %s %s %s %s", lib.Nn(ts), entryCoq, lib.Bytes(ext), lib.Bytes(lb)),
 				Input:  map[string]interface{}{"op": "leaf", "precert": precert, "cert_len": certLen, "ext_len": len(ext), "ts": ts},
 				Impl:   map[string]interface{}{"len": len(lb)},
-				PropOK: herr == nil && h == want, Note: "leaf hash is not SHA256(0x00 || leaf)", Tags: []string{fmt.Sprintf("rfc-leaf:precert=%v", precert)},
+				PropOK: herr == nil && h == want && string(lb) == string(hl), Note: "leaf hash is not SHA256(0x00 || leaf), or the leaf is not the hand-encoded RFC 6962 leaf", Tags: []string{fmt.Sprintf("rfc-leaf:precert=%v", precert)},
 			})
 			version := ct.V1
 			if r.Intn(6) == 0 {
@@ -503,6 +509,12 @@ func main() {
 				PropOK: propOK, Note: note, Tags: []string{"raw-entry:" + mut + fmt.Sprintf(":ok=%v", rerr == nil)},
 			})
 		}
+	}
+	// leaf sizes: powers of two and a dense range (sweep.go)
+	leafSizes(r, w, lib.Count(1<<13+2, 1<<16+2))
+	// class "JSON representations" (jsonrep.go)
+	for round := lib.Count(2, 25); round > 0; round-- {
+		jsonRepresentations(r, w, round)
 	}
 	w.Close()
 	fmt.Printf("c04: wrote %d cases\n", w.Len())
